@@ -105,9 +105,8 @@ def sit_estab_wndlimited(sim, p):
     flight, the rest queued"""
     handshake(sim, p)
     ex = sim.ex
-    w = sym_int('w', 16)
-    ex.assume(ex.binop('Ge', w, Int(16, 1), False))
-    ex.assume(ex.binop('Le', w, Int(16, 2000), False))
+    # concrete small window (the forged segment stays fully symbolic): symbolic w and n made some feasibility queries time out
+    w = Int(16, 1000)
     # one byte goes over first so that the peer's next ACK acknowledges something new (the implementation takes window
     # updates only from ACKs that advance SND.UNA); that ACK carries the small window
     sim.send('A', U64(1))
@@ -117,10 +116,7 @@ def sit_estab_wndlimited(sim, p):
     sim.arrives('A', sim.forged('B', vb.snd('nxt'), vb.rcv('nxt'), Int(8, ACK), w))
     if not (ex.binop('Eq', sim.view('A').snd('wnd'), w, False) is True):
         raise Unsupported('window-limited situation: the window update was not taken')
-    n = sym_int('n', 64)
-    w64 = ex.cast(w, 'u64', 'IntToInt')
-    ex.assume(ex.binop('Gt', n, w64, False))
-    ex.assume(ex.binop('Le', n, ex.binop('Add', w64, U64(1500), False), False))
+    n = U64(1700)            # 1000 bytes go out (window), 700 stay queued
     sim.send('A', n)
     sim.segments('A')
 
